@@ -26,7 +26,7 @@
 (***************************************************************************)
 EXTENDS Integers, Sequences, FiniteSets, TLC, Json
 
-CONSTANTS N, H, Silent, CutSets, CutAnyTime, HealAfter, RestartSet, AmevOn, MaxView, Emit, CoverMod
+CONSTANTS N, H, Silent, CutSets, CutAnyTime, HealAfter, RestartSet, RestartAnyTime, AmevOn, MaxView, Emit, CoverMod
 
 Node == INSTANCE DbftNode WITH DevEarlyCommitUnverified <- TRUE, Weaken <- {}
 
@@ -99,15 +99,16 @@ Partition(S) == /\ AllStarted /\ (phase = "init" \/ (CutAnyTime /\ phase = "befo
 Heal == /\ phase = "cut" /\ pend = {} /\ fired >= HealAfter
         /\ cut' = {} /\ phase' = "healed" /\ UNCHANGED <<xs, pend, now, fired, restarted, hist>>
 
-\* a validator of RestartSet loses its consensus state once (process restart), at a quiet moment, unless it has (pre)committed
-\* (a validator that forgets its own commit is a Byzantine fault, not a restart) or already finished the height
+\* a validator of RestartSet loses its consensus state once (process restart), at a quiet moment - or, with RestartAnyTime, in the
+\* middle of a round: it crashes while payloads are still on their way to it, and those are lost with it - unless it has
+\* (pre)committed (a validator that forgets its own commit is a Byzantine fault, not a restart) or already finished the height
 Restart(i) ==
-  /\ AllStarted /\ i \in RestartSet \ restarted /\ pend = {} /\ ~xs[i].blockDone /\ ~Node!Locked(xs[i])
+  /\ AllStarted /\ i \in RestartSet \ restarted /\ (pend = {} \/ RestartAnyTime) /\ ~xs[i].blockDone /\ ~Node!Locked(xs[i])
   /\ \E o \in Node!Api(Node!Blank(Cfg), "Start", [ts |-> 4000], [EnvOf(i) EXCEPT !.nonce = ToString(300 + 10 * i)]) :
        /\ xs' = [xs EXCEPT ![i] = Strip(o)]
        /\ hist' = [evs |-> IF Emit THEN Append(hist.evs, [n |-> i, call |-> "Restart", arg |-> [ts |-> 4000], env |-> [EnvOf(i) EXCEPT !.nonce = ToString(300 + 10 * i)],
                                                        done |-> FALSE, cfg |-> Cfg]) ELSE <<>>]
-       /\ pend' = Sent(i, o.out)
+       /\ pend' = {p \in pend : p[2] # i} \cup Sent(i, o.out)
   /\ restarted' = restarted \cup {i} /\ UNCHANGED <<now, cut, phase, fired>>
 
 Next == (\E i \in Live : StartNode(i)) \/ (\E p \in pend : Deliver(p[1], p[2])) \/ (\E i \in Live : Fire(i)) \/ Heal \/ (\E S \in CutSets : Partition(S)) \/ (\E i \in Live : Restart(i))
